@@ -562,6 +562,34 @@ const smtPrelude = `(set-option :produce-models true)
 (define-fun inrange ((q Ptr) (p Ptr) (lo (_ BitVec 64)) (hi (_ BitVec 64))) Bool
   (and (= (alloc q) (alloc p)) ((_ is PE) (path q)) (= (pe_p (path q)) (pe_p (path p)))
        (bvule lo (bvsub (pe_i (path q)) (pe_i (path p)))) (bvult (bvsub (pe_i (path q)) (pe_i (path p))) hi)))
+(define-fun rebase0 ((p Path) (np Path) (no (_ BitVec 64))) Path
+  (ite (and ((_ is PE) p) (= (pe_p p) PNil)) (PE np (bvadd no (pe_i p))) p))
+(define-fun rootidx0 ((p Path)) (_ BitVec 64)
+  (ite (and ((_ is PE) p) (= (pe_p p) PNil)) (pe_i p) #xffffffffffffffff))
+(define-fun rebase1 ((p Path) (np Path) (no (_ BitVec 64))) Path
+  (ite (and ((_ is PE) p) (= (pe_p p) PNil)) (PE np (bvadd no (pe_i p)))
+  (ite ((_ is PF) p) (PF (rebase0 (pf_p p) np no) (pf_i p))
+  (ite ((_ is PE) p) (PE (rebase0 (pe_p p) np no) (pe_i p)) p))))
+(define-fun rootidx1 ((p Path)) (_ BitVec 64)
+  (ite (and ((_ is PE) p) (= (pe_p p) PNil)) (pe_i p)
+  (ite ((_ is PF) p) (rootidx0 (pf_p p))
+  (ite ((_ is PE) p) (rootidx0 (pe_p p)) #xffffffffffffffff))))
+(define-fun rebase2 ((p Path) (np Path) (no (_ BitVec 64))) Path
+  (ite (and ((_ is PE) p) (= (pe_p p) PNil)) (PE np (bvadd no (pe_i p)))
+  (ite ((_ is PF) p) (PF (rebase1 (pf_p p) np no) (pf_i p))
+  (ite ((_ is PE) p) (PE (rebase1 (pe_p p) np no) (pe_i p)) p))))
+(define-fun rootidx2 ((p Path)) (_ BitVec 64)
+  (ite (and ((_ is PE) p) (= (pe_p p) PNil)) (pe_i p)
+  (ite ((_ is PF) p) (rootidx1 (pf_p p))
+  (ite ((_ is PE) p) (rootidx1 (pe_p p)) #xffffffffffffffff))))
+(define-fun rebase3 ((p Path) (np Path) (no (_ BitVec 64))) Path
+  (ite (and ((_ is PE) p) (= (pe_p p) PNil)) (PE np (bvadd no (pe_i p)))
+  (ite ((_ is PF) p) (PF (rebase2 (pf_p p) np no) (pf_i p))
+  (ite ((_ is PE) p) (PE (rebase2 (pe_p p) np no) (pe_i p)) p))))
+(define-fun rootidx3 ((p Path)) (_ BitVec 64)
+  (ite (and ((_ is PE) p) (= (pe_p p) PNil)) (pe_i p)
+  (ite ((_ is PF) p) (rootidx2 (pf_p p))
+  (ite ((_ is PE) p) (rootidx2 (pe_p p)) #xffffffffffffffff))))
 (define-fun popcnt64 ((x (_ BitVec 64))) (_ BitVec 64)
   ((_ zero_extend 56) (bvadd ((_ zero_extend 7) ((_ extract 0 0) x)) ((_ zero_extend 7) ((_ extract 1 1) x)) ((_ zero_extend 7) ((_ extract 2 2) x)) ((_ zero_extend 7) ((_ extract 3 3) x)) ((_ zero_extend 7) ((_ extract 4 4) x)) ((_ zero_extend 7) ((_ extract 5 5) x)) ((_ zero_extend 7) ((_ extract 6 6) x)) ((_ zero_extend 7) ((_ extract 7 7) x)) ((_ zero_extend 7) ((_ extract 8 8) x)) ((_ zero_extend 7) ((_ extract 9 9) x)) ((_ zero_extend 7) ((_ extract 10 10) x)) ((_ zero_extend 7) ((_ extract 11 11) x)) ((_ zero_extend 7) ((_ extract 12 12) x)) ((_ zero_extend 7) ((_ extract 13 13) x)) ((_ zero_extend 7) ((_ extract 14 14) x)) ((_ zero_extend 7) ((_ extract 15 15) x)) ((_ zero_extend 7) ((_ extract 16 16) x)) ((_ zero_extend 7) ((_ extract 17 17) x)) ((_ zero_extend 7) ((_ extract 18 18) x)) ((_ zero_extend 7) ((_ extract 19 19) x)) ((_ zero_extend 7) ((_ extract 20 20) x)) ((_ zero_extend 7) ((_ extract 21 21) x)) ((_ zero_extend 7) ((_ extract 22 22) x)) ((_ zero_extend 7) ((_ extract 23 23) x)) ((_ zero_extend 7) ((_ extract 24 24) x)) ((_ zero_extend 7) ((_ extract 25 25) x)) ((_ zero_extend 7) ((_ extract 26 26) x)) ((_ zero_extend 7) ((_ extract 27 27) x)) ((_ zero_extend 7) ((_ extract 28 28) x)) ((_ zero_extend 7) ((_ extract 29 29) x)) ((_ zero_extend 7) ((_ extract 30 30) x)) ((_ zero_extend 7) ((_ extract 31 31) x)) ((_ zero_extend 7) ((_ extract 32 32) x)) ((_ zero_extend 7) ((_ extract 33 33) x)) ((_ zero_extend 7) ((_ extract 34 34) x)) ((_ zero_extend 7) ((_ extract 35 35) x)) ((_ zero_extend 7) ((_ extract 36 36) x)) ((_ zero_extend 7) ((_ extract 37 37) x)) ((_ zero_extend 7) ((_ extract 38 38) x)) ((_ zero_extend 7) ((_ extract 39 39) x)) ((_ zero_extend 7) ((_ extract 40 40) x)) ((_ zero_extend 7) ((_ extract 41 41) x)) ((_ zero_extend 7) ((_ extract 42 42) x)) ((_ zero_extend 7) ((_ extract 43 43) x)) ((_ zero_extend 7) ((_ extract 44 44) x)) ((_ zero_extend 7) ((_ extract 45 45) x)) ((_ zero_extend 7) ((_ extract 46 46) x)) ((_ zero_extend 7) ((_ extract 47 47) x)) ((_ zero_extend 7) ((_ extract 48 48) x)) ((_ zero_extend 7) ((_ extract 49 49) x)) ((_ zero_extend 7) ((_ extract 50 50) x)) ((_ zero_extend 7) ((_ extract 51 51) x)) ((_ zero_extend 7) ((_ extract 52 52) x)) ((_ zero_extend 7) ((_ extract 53 53) x)) ((_ zero_extend 7) ((_ extract 54 54) x)) ((_ zero_extend 7) ((_ extract 55 55) x)) ((_ zero_extend 7) ((_ extract 56 56) x)) ((_ zero_extend 7) ((_ extract 57 57) x)) ((_ zero_extend 7) ((_ extract 58 58) x)) ((_ zero_extend 7) ((_ extract 59 59) x)) ((_ zero_extend 7) ((_ extract 60 60) x)) ((_ zero_extend 7) ((_ extract 61 61) x)) ((_ zero_extend 7) ((_ extract 62 62) x)) ((_ zero_extend 7) ((_ extract 63 63) x)))))
 `
